@@ -129,3 +129,29 @@ Theorem C03_outline_lists : forall b pad sub span_types keep fn types f ns ln st
   [List None false (map (Outline.otok b pad sub k) ns)].
 Proof. intros b pad sub span_types keep fn types f ns ln st k Hq. exact (outline_tokens b pad sub span_types keep fn Hq types f ns ln st k). Qed.
 Print Assumptions C03_outline_lists.
+
+(* ... as whole documents (Document's own fuel, proved sufficient) and down to the HTML: html_list is the HTML written
+   directly from the forest (a tight list: titles without <p>, the sub-list inside its item) *)
+From Mistletoe Require Import Proofs.OutlineMore.
+Theorem C03_outline_html : forall b pad sub cfg o k ns,
+  bullet_ok b -> (1 <= pad <= 4)%nat -> (sub <= 3)%nat ->
+  list_first (cfg_block cfg) = true -> In BK_Paragraph (cfg_block cfg) -> forallb kind_quiet (removelast (cfg_span cfg)) = true ->
+  (k <= 3)%nat -> ns <> [] -> forallb owf ns = true ->
+  fst (fst (parse_lines cfg (text_of (Outline.oforest b pad sub k ns)))) = Document [List None false (map (Outline.otok b pad sub k) ns)] /\
+  render_html o (fst (fst (parse_lines cfg (text_of (Outline.oforest b pad sub k ns))))) = html_list o ns ++ [10].
+Proof.
+  intros b pad sub cfg o k ns Hb Hp Hs Hl Hpar Hq Hk Hne Hw. split.
+  - exact (outline_document b pad sub Hb Hp Hs cfg k ns Hl Hpar Hq Hk Hne Hw).
+  - exact (outline_html b pad sub Hb Hp Hs cfg o k ns Hl Hpar Hq Hk Hne Hw).
+Qed.
+Print Assumptions C03_outline_html.
+
+Theorem C03_outline_instance :
+  let ns := [ONode 73 $"ntro" [ONode 87 $"hy > ""so""" []; ONode 72 $"ow so" [ONode 68 $"etails" []]]; ONode 85 $"sage" []] in
+  forallb owf ns = true /\
+  text_of (Outline.oforest 42 2 1 3 ns) = [ $"   *  Intro" ++ [10]; $"       *  Why > ""so""" ++ [10]; $"       *  How so" ++ [10]; $"           *  Details" ++ [10]; $"   *  Usage" ++ [10] ] /\
+  html_list (mkHopts false false) ns =
+    $"<ul>" ++ [10] ++ $"<li>Intro" ++ [10] ++ $"<ul>" ++ [10] ++ $"<li>Why &gt; ""so""</li>" ++ [10] ++ $"<li>How so" ++ [10] ++ $"<ul>" ++ [10] ++ $"<li>Details</li>" ++ [10] ++
+    $"</ul>" ++ [10] ++ $"</li>" ++ [10] ++ $"</ul>" ++ [10] ++ $"</li>" ++ [10] ++ $"<li>Usage</li>" ++ [10] ++ $"</ul>".
+Proof. vm_compute. repeat split; reflexivity. Qed.
+Print Assumptions C03_outline_instance.
